@@ -504,6 +504,13 @@ func (e fixEvaluator) LeaveNTT(ctIn, opOut *rlwe.Ciphertext) {
 	}
 }
 
+// CLONE control (dupview): both halves are the same half
+func splitBad(buf []byte, n int) (byte, byte) {
+	lo := buf[:n]
+	hi := buf[:n]
+	return lo[0], hi[0]
+}
+
 func rnsBad(r *ring.Ring, v uint64) (rns ring.RNSScalar) {
 	rns = make(ring.RNSScalar, r.Level()+1)
 	for i := range rns {
